@@ -255,6 +255,7 @@ func checkArrayAlgebra(p *Program, r *Report, prop string) {
 	checkNoDoubleStep(p, r, prop)
 	checkAccessorSiblings(p, r, only)
 	checkSeriesAxisSelectors(p, r, only)
+	checkViewsOwnStrides(p, r, prop)
 	r.Rule("R01.5", "views are live: a view object holds nothing but strides and the shared storage (no second element buffer), and what Unroll hands out is the storage itself or gathered in the same call, never a copy cached in the view")
 	// R01.2 / R01.3
 	ats := arrayTypes(p)
@@ -1062,4 +1063,162 @@ func checkSeriesAxisSelectors(p *Program, r *Report, only func(*arrayType) bool)
 		}
 	}
 	r.Floor("R01.8", "array types with a series-axis selector", n, 4)
+}
+
+// ---- R01.9: a view owns its stride vectors ----
+
+var retAliasMemo = map[*ssa.Function]map[int]bool{}
+
+// returnAliases: indices of the slice parameters of f that a result of f may be (a reslice of), followed through
+// phis, reslicing and calls of module functions.
+func returnAliases(f *ssa.Function, depth int) map[int]bool {
+	if r, ok := retAliasMemo[f]; ok {
+		return r
+	}
+	out := map[int]bool{}
+	retAliasMemo[f] = out
+	if len(f.Blocks) == 0 || depth > 4 {
+		return out
+	}
+	for _, ret := range returnsOf(f) {
+		for _, rv := range ret.Results {
+			if _, isSlice := rv.Type().Underlying().(*types.Slice); !isSlice {
+				continue
+			}
+			for prm := range sliceParamsOf(rv, depth) {
+				for i, q := range f.Params {
+					if q == prm {
+						out[i] = true
+					}
+				}
+			}
+		}
+	}
+	return out
+}
+
+// sliceParamsOf: the slice parameters of the enclosing function that v may be (a reslice of).
+func sliceParamsOf(v ssa.Value, depth int) map[*ssa.Parameter]bool {
+	out := map[*ssa.Parameter]bool{}
+	seen := map[ssa.Value]bool{}
+	var walk func(v ssa.Value)
+	walk = func(v ssa.Value) {
+		if v == nil || seen[v] {
+			return
+		}
+		seen[v] = true
+		switch x := v.(type) {
+		case *ssa.Parameter:
+			if _, isSlice := x.Type().Underlying().(*types.Slice); isSlice {
+				out[x] = true
+			}
+		case *ssa.Phi:
+			for _, e := range x.Edges {
+				walk(e)
+			}
+		case *ssa.Slice:
+			walk(x.X)
+		case *ssa.ChangeType:
+			walk(x.X)
+		case *ssa.UnOp:
+			// a local cell holding the slice
+			if a, ok := x.X.(*ssa.Alloc); ok && x.Op == token.MUL {
+				for _, ref := range refs(a) {
+					if st, ok := ref.(*ssa.Store); ok && st.Addr == ssa.Value(a) {
+						walk(st.Val)
+					}
+				}
+			}
+		case *ssa.Call:
+			c := x.Common()
+			if bi, ok := c.Value.(*ssa.Builtin); ok {
+				// append(s, …) may return s's own storage
+				if bi.Name() == "append" && len(c.Args) > 0 {
+					if k, isC := c.Args[0].(*ssa.Const); !isC || !k.IsNil() {
+						walk(c.Args[0])
+					}
+				}
+				return
+			}
+			f := c.StaticCallee()
+			if f == nil || !InModule(f) || c.IsInvoke() {
+				return
+			}
+			for j := range returnAliases(f, depth+1) {
+				if j < len(c.Args) {
+					walk(c.Args[j])
+				}
+			}
+		}
+	}
+	walk(v)
+	return out
+}
+
+// checkViewsOwnStrides (R01.9): the stride vectors a view keeps are its own or its parent's. A value stored into
+// Step, Offset or OffsetStep of a view that may be a slice argument of the function (the caller's `step` vector, handed
+// back by a helper that "has nothing to compute") ties the view's addressing to a vector the caller is free to
+// reuse: a later change of that vector moves every element of the earlier view.
+func checkViewsOwnStrides(p *Program, r *Report, prop string) {
+	r.Rule("R01.9", "a view owns its stride vectors: no value stored into Step, Offset or OffsetStep of a view may be (a reslice of) a slice parameter of the storing function, directly or through module helpers whose result can be one of their arguments; strides are freshly computed vectors or the parent view's own")
+	n := 0
+	for _, fn := range dataFuncs(p) {
+		if prop == "C03" && relPkg(fnPkg(fn).Path()) != "data/cdata" {
+			if fn.Signature.Recv() == nil || !isCommonStruct(fn.Signature.Recv().Type()) {
+				continue
+			}
+		}
+		k := 0
+		for _, ev := range commonFieldStores(fn) {
+			if ev.field != "Step" && ev.field != "Offset" && ev.field != "OffsetStep" {
+				continue
+			}
+			if ev.setterOwn || ev.val == nil {
+				continue // a setter helper's own store of its parameter: judged at each call of the helper
+			}
+			k++
+			n++
+			key := fmt.Sprintf("%s:owns-%s#%d", FuncKey(fn), ev.field, k)
+			var names []string
+			for prm := range sliceParamsOf(ev.val, 0) {
+				// a setter method storing one of its own parameters into its receiver (`nd.Step = step` in
+				// setStrides): whose slice that is is decided where the method is called
+				if st, isStore := ev.at.(*ssa.Store); isStore && fn.Signature.Recv() != nil && len(fn.Params) > 0 {
+					if fa, ok := st.Addr.(*ssa.FieldAddr); ok {
+						if _, base, _ := fieldName(fa); objOf(base) == ssa.Value(fn.Params[0]) {
+							pi := -1
+							for i, q := range fn.Params {
+								if q == prm {
+									pi = i
+								}
+							}
+							for _, caller := range dataFuncs(p) {
+								for _, cc := range callsIn(caller) {
+									if cc.Common().StaticCallee() != fn || pi < 0 || pi >= len(cc.Common().Args) {
+										continue
+									}
+									for cp := range sliceParamsOf(cc.Common().Args[pi], 0) {
+										names = append(names, cp.Name()+" of "+caller.Name())
+									}
+								}
+							}
+							continue
+						}
+					}
+				}
+				names = append(names, prm.Name())
+			}
+			sort.Strings(names)
+			if len(names) > 0 {
+				r.Fail("R01.9", key, p.Pos(ev.at.Pos()), fmt.Sprintf("the view's %s may be the caller's own slice `%s` (handed through unchanged): when the caller reuses that vector for its next slice, the stride of this view changes with it and every element of the view moves", ev.field, strings.Join(names, "`, `")))
+			} else {
+				r.OK("R01.9", fmt.Sprintf("%s: %s is a fresh vector or the parent's", FuncKey(fn), ev.field))
+			}
+		}
+	}
+	floor := 40
+	if prop == "C03" {
+		floor = 15
+	}
+	r.Floor("R01.9", "stride-vector stores", n, floor)
 }
